@@ -2,6 +2,7 @@ CONSTANTS ControlsExisting = TRUE
   RandomFresh = TRUE
   OpenReturns = TRUE
   OwnsOnlyCreated = TRUE
+  OpenKeepsLimits = TRUE
 SPECIFICATION TSpec
 INVARIANTS OneOwner
 CONSTRAINT Mark
